@@ -3,6 +3,7 @@
    Statements in model/IdsSpec.v.  The history-level reading ([C05_full]) is not proved: it is the
    subject of the history oracle of checks/C05.py; proved here is everything one call does. *)
 From Aqua Require Import Base Json Air Trace Handler Values Scalars Lens Exec RunExec ExecStreams CallSpec IdsSpec ExecInv IdsProofs.
+From Aqua Require SeqLocal NetLin NetLinCases NetLinProofs.
 Open Scope N_scope.
 Open Scope list_scope.
 
@@ -39,9 +40,29 @@ Example C05_ex_recorded :
   out_trace ex_third_out = [SPar 1 1; SCall (Executed (VRUnused (CValue (JStr "six")))); SCall (Executed (VRUnused (CValue (JStr "seven"))))].
 Proof. vm_compute. reflexivity. Qed.
 
+(* ---- history level, straight-line scripts on several peers (model/NetLin.v: the approximation invariant) ----
+   In EVERY honest history of a straight-line script the service invocations are a PREFIX of the calls of the
+   sequential reading, in its order: every call is invoked at most once, with the reading's arguments; and a request
+   is pending at a host only for the NEXT call of the reading, alone, at the peer it is addressed to. *)
+Theorem C05_linear_at_most_once : forall svc init ts ttl,
+    (NetLin.lin_log_is_prefix svc init ts ttl RunExec.run1 /\ NetLin.lin_pending_is_next svc init ts ttl RunExec.run1) /\
+    (NetLin.lin_log_is_prefix svc init ts ttl ExecStreams.run2 /\ NetLin.lin_pending_is_next svc init ts ttl ExecStreams.run2).
+Proof.
+  intros. split; (split; [apply NetLinProofs.log_is_prefix_gen | apply NetLinProofs.pending_is_next_gen]);
+    first [apply NetLinProofs.run1_step | apply NetLinProofs.run2_step].
+Qed.
+
+Example C05_linear_at_most_once_example :
+  match NetLinCases.nlx_full with
+  | Some F => SeqLocal.n_log (NetLinCases.nlx_history 10) = NetLin.o_calls F /\ length (NetLin.o_calls F) = 4%nat
+  | None => False
+  end.
+Proof. vm_compute. split; reflexivity. Qed.
+
 Print Assumptions C05_not_rerequested_partial.
 Print Assumptions C05_recorded_partial.
 Print Assumptions C05_meet_keeps_result.
 Print Assumptions C05_pending_kept_partial.
 Print Assumptions C05_request_recorded_partial.
 Print Assumptions C05_exec_frame_partial.
+Print Assumptions C05_linear_at_most_once.
